@@ -1,0 +1,43 @@
+//go:build verif
+
+package utils
+
+// Contracts for the verification framework in /verif (comment-only file, build tag `verif`).
+// C20: which entries of the hooks directory become hooks.
+
+// Deterministic, effect-free library functions and FileInfo getters (uninterpreted in the logic;
+// the same symbols are used by the code and by the specification).
+//@ pure strings.HasPrefix path/filepath.Ext slices.Contains io/fs.FileInfo.IsDir io/fs.FileInfo.Name io/fs.FileInfo.Mode
+
+// a file is a hook iff it is not hidden, has no data-file extension and carries an execute bit
+//@ pred BadExt(e string) := e == ".yaml" || e == ".json" || e == ".md" || e == ".txt"
+//@ pred IsHook(f os.FileInfo) := !strings.HasPrefix(f.Name(), ".") && !BadExt(filepath.Ext(f.Name())) && f.Mode()&0o111 != 0
+//@ pred Sentinels() := ErrFileHasWrongExtension != nil && ErrFileIsHidden != nil && ErrFileNoExecutablePermissions != nil && filepath.SkipDir != nil
+
+//@ func CheckExecutablePermissions
+//@   prop C20
+//@   requires Sentinels()
+//@   modifies nothing
+//@   ensures (result == nil) == (f.Mode()&0o111 != 0)
+
+//@ func checkExecutableHookFile
+//@   prop C20
+//@   requires Sentinels()
+//@   modifies nothing
+//@   ensures [iff-hook] (result == nil) == IsHook(f)
+
+// The walk callback: decision table over (path, f, err).
+//@ func RecursiveGetExecutablePaths$1
+//@   prop C20
+//@   requires Sentinels() && f != nil
+//@   modifies captured(paths), allelems(string)
+//@   let skipName := strings.HasPrefix(f.Name(), ".") || slices.Contains(excludedDirs, f.Name())
+//@   ensures [error]         err != nil ==> result == err && sameseq(paths, old(paths))
+//@   ensures [dir]           err == nil && f.IsDir() ==> (result == filepath.SkipDir) == (path != dir && skipName)
+//@   ensures [dir-continue]  err == nil && f.IsDir() && !(path != dir && skipName) ==> result == nil
+//@   ensures [root]          err == nil && f.IsDir() && path == dir ==> result == nil
+//@   ensures [dir-no-append] err == nil && f.IsDir() ==> sameseq(paths, old(paths))
+//@   ensures [file-hook/result] err == nil && !f.IsDir() && IsHook(f) ==> result == nil && len(paths) == old(len(paths)) + 1
+//@   ensures [file-hook/last]   err == nil && !f.IsDir() && IsHook(f) ==> paths[len(paths)-1] == path
+//@   ensures [file-hook/prefix] err == nil && !f.IsDir() && IsHook(f) ==> forall(j, 0, old(len(paths)), paths[j] == old(paths)[j])
+//@   ensures [file-skip]     err == nil && !f.IsDir() && !IsHook(f) ==> result == nil && sameseq(paths, old(paths))
